@@ -234,6 +234,26 @@ def main(tier="quick"):
             tol = 4e-7 if ("floatm" in cid and (":/:" in cid or ":**:" in cid or ":%:" in cid or cid.startswith("bin2"))) else 0.0
             cases.append(Case(pid, backend, q, md, {"cell": cid, "type_rule": rule, "tol": tol}))
             pid += 1
+            # the same cell after an earlier query of the process (on an executor object of its own) declared the value
+            # methods with OTHER types: the operand kinds are those this query declares
+            if cid.startswith("bin:") and (tier != "quick" or cid.split(":")[1] in ("/", "*")) and "j." in expr:
+                swapped = tuple(dict(m, return_type={"int": "double", "float": "int", "bool": "double"}[m["return_type"]]) if m.get("return_type") in ("int", "float", "bool") else m for m in md)
+                prior = [(f"ds.SelectMany(lambda e: e.{coll}('A')).Select(lambda j: (j.nTrk(), j.q(), j.isGood()))", swapped)]
+                cases.append(Case(pid, backend, q, md, {"cell": "after-redeclared:" + cid, "type_rule": rule, "tol": tol, "prior": prior, "prior_executor": "other"}))
+                pid += 1
+    # a value method the BACKEND pre-declares (isPFMuon: bool), declared as an integer by the query: the operand kind is the
+    # one the query declares (CMS backends; the ATLAS defaults are all object-valued)
+    for backend in (("cms_aod",) if tier == "quick" else ("cms_aod", "cms_miniaod")):
+        a = qgen.ALPHA[backend]
+        md = tuple(qgen.method_metadata(a)) + ({"metadata_type": "add_method_type_info", "type_string": a.primary_cls, "method_name": "isPFMuon", "return_type": "int"},)
+        for op, other, rule in (("/", "2", ("floating", 2)), ("*", "2", ("integral", None)), ("+", "j.nTrk()", ("integral", None)), ("/", "j.nTrk()", ("floating", 2)),
+                                ("-", "1", ("integral", None)), ("*", "j.pt()", ("floating", 2)), ("**", "2", ("floating", 2))):
+            for l, r in (("j.isPFMuon()", other), (other, "j.isPFMuon()")):
+                if op in ("/", "**") and r == "j.isPFMuon()":
+                    continue      # division by / power of a 0-or-1 value: the interesting operand is the left one
+                q = f"ds.SelectMany(lambda e: e.{a.primary}('A')).Select(lambda j: ({l} {op} {r}))"
+                cases.append(Case(pid, backend, q, md, {"cell": f"declared-over-default:{op}:{'l' if l.startswith('j.isPF') else 'r'}:{other}", "type_rule": rule, "tol": 0.0}))
+                pid += 1
     res = execute(cases, events, chunk_size=60, post=post)
     stats = Counter()
     recs = []
